@@ -586,7 +586,9 @@ def packing(ctx):
                 for (k, bid, callee, args, t) in path_calls(p):
                     if f.callee_decl(t) == SM.IO_WRITE_ALL:
                         a = args[1]
-                        wr = is_call(a, 'Index<I> for [T; N]>::index') and a[2][1][0] == 'agg' and a[2][1][1].endswith('RangeTo') and any(x[0] == 'param' for x in walk(dict(a[2][1][2])['end']))
+                        while a[0] == 'after':          # the same prefix was first handed to iter_mut(): the slice itself is unchanged
+                            a = a[3]
+                        wr = (is_call(a, 'Index<I> for [T; N]>::index') or is_call(a, 'IndexMut<I> for [T; N]>::index_mut')) and a[2][1][0] == 'agg' and a[2][1][1].endswith('RangeTo') and any(x[0] == 'param' for x in walk(dict(a[2][1][2])['end']))
         if not step:
             # buf[..nbytes].iter_mut().enumerate().for_each(|(i, b)| *b = (n >> (8 * i)) as u8)
             for p in explore(f, max_visits=1, havoc=True):
